@@ -1,5 +1,5 @@
 (* CheckC06.v — executable comparison for C06 *)
-From MQ Require Import Base Codec Inbound Parse ParseSpec ParsePending ParseExit.
+From MQ Require Import Base Codec Inbound Parse ParseSpec ParsePending ParseExit ParseResub.
 Open Scope N_scope.
 
 Inductive parse_obs :=
@@ -289,3 +289,55 @@ Definition alloc_model_ok (c : alloc_case) : bool :=
 Definition c06_alloc_violations (cs : list alloc_case) : list nat := first_indices (fun c => negb (alloc_ok c)) cs.
 Definition c06_alloc_mismatches (cs : list alloc_case) : list nat :=
   first_indices (fun c => let '(_, _, ok, _) := c in ok && negb (alloc_model_ok c)) cs.
+
+(* ---------- hostile SUBACK codes, then link loss and re-subscription through a RetryClient ---------- *)
+(* (Subscribe calls of the application with the return codes the broker answered on the first
+   connection; process survived and nothing stuck or unexpected; Err() of the first connection after
+   the tasks finished (before the peer closed it); the SUBSCRIBE packets on the second connection as
+   (filter, QoS) lists; a Ping on the second connection succeeded; Err() of the second connection
+   before the peer closed it) *)
+Definition resub_case :=
+  (list (list subreq * list N) * bool * option perr * list (list subreq) * bool * option perr)%type.
+
+Fixpoint last_asked (t : str) (ops : list (list subreq * list N)) (acc : option N) : option N :=
+  match ops with
+  | [] => acc
+  | (subs, _) :: r =>
+      last_asked t r (fold_left (fun a s => if str_eqb (fst s) t then Some (snd s) else a) subs acc)
+  end.
+
+Fixpoint distinct_topics (ts : list str) : list str :=
+  match ts with
+  | [] => []
+  | t :: r => t :: filter (fun x => negb (str_eqb x t)) (distinct_topics r)
+  end.
+
+Definition counts_right (ops : list (list subreq * list N)) : bool :=
+  forallb (fun op => Nat.eqb (length (fst op)) (length (snd op))) ops.
+
+(* no panic anywhere (the child survived), nothing stuck; return codes of the right number, whatever
+   their values, leave the link up (Err() nil) — a wrong number ends it with an error; after the link
+   loss every filter the application asked for is requested again exactly once, with the QoS the
+   application asked last (so: within 0..2) and never a byte of a SUBACK; the client still answers *)
+Definition resub_ok (c : resub_case) : bool :=
+  let '(ops, alive, err1, wire2, ping_ok, err2) := c in
+  let asked := flat_map (fun op => map fst (fst op)) ops in
+  let reqs := concat wire2 in
+  alive && ping_ok
+  && option_eqb perr_eqb err2 None
+  && (if counts_right ops then option_eqb perr_eqb err1 None else err_is (fun _ => true) err1)
+  && forallb (fun s => (snd s <=? 2) && option_eqb N.eqb (last_asked (fst s) ops None) (Some (snd s))) reqs
+  && Nat.eqb (length reqs) (length (distinct_topics asked))
+  && Nat.eqb (length (distinct_topics (map fst reqs))) (length reqs).
+
+Definition subreq_eqb (a b : subreq) : bool := str_eqb (fst a) (fst b) && (snd a =? snd b).
+
+Definition resub_model_ok (c : resub_case) : bool :=
+  let '(ops, alive, err1, wire2, ping_ok, err2) := c in
+  let plan := resubscribe (rc_history [] ops) in
+  list_eqb (list_eqb subreq_eqb) wire2 plan
+  && forallb (fun req => match sub_pack 1 req with Ok _ => true | _ => false end) plan.
+
+Definition c06_resub_violations (cs : list resub_case) : list nat := first_indices (fun c => negb (resub_ok c)) cs.
+Definition c06_resub_mismatches (cs : list resub_case) : list nat :=
+  first_indices (fun c => let '(_, alive, _, _, _, _) := c in alive && negb (resub_model_ok c)) cs.
